@@ -40,6 +40,10 @@ impl TypeRegistry {
     }
 
     pub(crate) fn unresolved(&self) -> Vec<ItemPath> {
+        #[cfg(feature = "pyxis_verif")]
+        if let Some(ordered) = verif::ordered_unresolved(self) {
+            return ordered;
+        }
         self.types
             .iter()
             .filter(|(_, t)| !t.is_predefined() && !t.is_resolved())
@@ -96,5 +100,47 @@ impl TypeRegistry {
 
     pub(crate) fn padding_type(&self, bytes: usize) -> Type {
         Type::Array(Box::new(self.resolve_string(&[], "u8").unwrap()), bytes)
+    }
+}
+
+/// Verification hook: lets a test harness choose the order in which
+/// `TypeRegistry::unresolved` reports items, instead of hash-map order.
+#[cfg(feature = "pyxis_verif")]
+pub mod verif {
+    use super::{ItemPath, TypeRegistry};
+    use std::cell::RefCell;
+
+    thread_local! {
+        static PRIORITY: RefCell<Option<Vec<ItemPath>>> = const { RefCell::new(None) };
+    }
+
+    /// Installs (or, with `None`, removes) a priority list for the current thread.
+    /// Unresolved items are reported in the order of this list; items not in the
+    /// list follow, in path order.
+    pub fn set_priority(priority: Option<Vec<ItemPath>>) {
+        PRIORITY.with(|p| *p.borrow_mut() = priority);
+    }
+
+    pub(super) fn ordered_unresolved(registry: &TypeRegistry) -> Option<Vec<ItemPath>> {
+        PRIORITY.with(|p| {
+            let p = p.borrow();
+            let priority = p.as_ref()?;
+            let mut paths: Vec<ItemPath> = registry
+                .types
+                .iter()
+                .filter(|(_, t)| !t.is_predefined() && !t.is_resolved())
+                .map(|(k, _)| k.clone())
+                .collect();
+            paths.sort_by_key(|path| {
+                (
+                    priority
+                        .iter()
+                        .position(|q| q == path)
+                        .unwrap_or(usize::MAX),
+                    path.clone(),
+                )
+            });
+            Some(paths)
+        })
     }
 }
